@@ -37,7 +37,15 @@ def load_known(pid):
     return [k for k in data.get('findings', []) if k.get('property') == pid]
 
 
+DEADLINE = [None]
+
+
 def run_worker(part, workdir):
+    if DEADLINE[0] is not None and time.time() > DEADLINE[0]:
+        return {'status': 'UNKNOWN', 'paths': 0, 'reach': 0, 'rejected': 0, 'solver_queries': 0,
+                'solver_time_s': 0.0, 'functions': [], 'cex': None, 'stats': {}, 'model_stats': {},
+                'rewrites': {}, 'messages': ['not started: the wall-clock budget of this tier was used up'],
+                'stderr': '', 'rc': None, 'elapsed': 0.0}
     src = os.path.join(workdir, part.name + '.py')
     with open(src, 'w') as f:
         f.write(part.source())
@@ -179,9 +187,13 @@ def check(pid, tier, seed):
             kernel_results = list(mod.kernels(tier, seed))
 
         # --- symbolic exploration
+        budget = os.environ.get('VERIF_WALL_BUDGET') or ('1800' if tier == 'thorough' else '')
+        DEADLINE[0] = (time.time() + float(budget)) if budget else None
         order = list(parts)
         rng.shuffle(order)
-        order.sort(key=lambda p: -p.timeout)
+        if tier != 'thorough':
+            order.sort(key=lambda p: -p.timeout)      # quick: longest first; thorough: seeded shuffle so that
+                                                      # a wall-clock budget cuts a random subset
         results = {}
         with cf.ThreadPoolExecutor(max_workers=JOBS) as ex:
             # self-test of the modelling layer runs alongside (exit 3 on mismatch)
